@@ -650,6 +650,12 @@ def check_helpers(case, ctx):
     if kind == "direct_sum":
         mats = [np.asarray(m, dtype=float) for m in case["mats"]]
         ctx.close(mu.calc_direct_sum(mats), block_diag(mats), 0.0, "calc_direct_sum")
+        if len(mats) >= 2:
+            # the same direct sum with an integer-valued first block handed over with an integer dtype (an identity, a
+            # covariance of a deterministic distribution): the blocks after it keep their fractional parts
+            lead = np.eye(mats[0].shape[0], dtype=np.int64)
+            got_i = mu.calc_direct_sum([lead] + [m.copy() for m in mats[1:]])
+            ctx.close(np.asarray(got_i, dtype=float), block_diag([lead.astype(float)] + mats[1:]), 0.0, "calc_direct_sum:integer_first_block")
         x = np.asarray(case["x"], dtype=float)
         v = block_diag(mats)
         x = x[:, : v.shape[0]]
